@@ -77,12 +77,38 @@ def run(ctx):
     ctx.floor("C16.1", 5)
     ctx.floor("C16.2", 8)
 
+    ess_rule(ctx, "C16.3")
+    ctx.floor("C16.3", 6)
+    ctx.assumptions += ["np.random.choice / np.where semantics; selection frequencies and ESS bounds are statistical / numeric and not decided"]
+
+
+def ess_rule(ctx, clause):
+    """Every effective-sample-size implementation of the package is the log-space Kish form (shared by C16.3 and C15.4)."""
+    prog = ctx.prog
     # ---- ESS implementations ---------------------------------------------
     impls = [
         (ctx.fn("nessai.utils.stats:effective_sample_size"), "log_w"),
         (ctx.fn("nessai.evidence:_BaseNSIntegralState.effective_n_posterior_samples"), "log_p"),
         (ctx.fn("nessai.utils.stats:weighted_quantile"), "log_weights"),
     ]
+    # every other function / property of the package that computes an effective sample size - overrides of the state's
+    # property in particular - is either the same log-space form or a pure delegation to one of the implementations
+    import re as _re
+    fam_ = _re.compile(r"(^|_)(ess|neff)($|_)|effective_(n|sample)")
+    known_ = {g_.qual for g_, _v in impls}
+    for g_ in prog.all_functions:
+        if g_.qual in known_ or not fam_.search(g_.name) or g_.is_setter or g_.is_abstract:
+            continue
+        rets_ = [r_ for r_ in walk_no_nested(g_.node) if isinstance(r_, ast.Return) and r_.value is not None]
+        body_ = [s_ for s_ in g_.node.body if not (isinstance(s_, ast.Expr) and isinstance(s_.value, ast.Constant))]
+        if len(body_) == 1 and isinstance(body_[0], ast.Raise):
+            continue
+        deleg_ = bool(rets_) and all((isinstance(r_.value, ast.Attribute) and fam_.search(r_.value.attr)) or (isinstance(r_.value, ast.Call) and fam_.search((call_name(r_.value) or "").split(".")[-1])) for r_ in rets_) and all(isinstance(s_, (ast.Return, ast.If)) or (isinstance(s_, ast.Expr) and isinstance(s_.value, ast.Constant)) for s_ in walk_no_nested(g_.node) if isinstance(s_, ast.stmt) and s_ is not g_.node)
+        if deleg_:
+            ctx.ob("R-SIB", clause, g_, "an effective-sample-size accessor only delegates to one of the Kish implementations", True, f"`{src(rets_[0])[:70]}`")
+        else:
+            var_ = next((p_ for p_ in g_.params() if "log" in p_ or p_.startswith("w")), "log_p")
+            impls.append((g_, var_))
     for g, var in impls:
         sts = stmts_in_order(g.node)
         kish = find_expr("exp(-logsumexp(2 * $$w))", g.node)
@@ -91,7 +117,7 @@ def run(ctx):
             w = kish[0][1]["w"]
             norm = [s_ for s_ in sts if match_stmt("$$w -= logsumexp($$w)", s_, {"w": w}) is not None or match_stmt("$$w = $$w - logsumexp($$w)", s_, {"w": w}) is not None]
         ok = len(norm) == 1 and len(kish) == 1 and norm[0].lineno < kish[0][0].lineno
-        ctx.ob("R-SIB", "C16.3", g, "Kish effective sample size in log space: exp(-logsumexp(2 (w - logsumexp w)))", ok, f"normalise `{src(norm[0]) if norm else None}` ; `{src(kish[0][0]) if kish else None}`")
+        ctx.ob("R-SIB", clause, g, "Kish effective sample size in log space: exp(-logsumexp(2 (w - logsumexp w)))", ok, f"normalise `{src(norm[0]) if norm else None}` ; `{src(kish[0][0]) if kish else None}`")
         reports = []
         chk = DegChecker({}, set(), lambda node, msg: reports.append((node, msg)))
         env = {p: Fraction(0) for p in g.params()}
@@ -102,9 +128,7 @@ def run(ctx):
         chk.function(g.node, env)
         d = chk.deg(kish[0][0], env) if kish else None
         bad = [m for n_, m in reports if "exponential" in m or "applies" in m]
-        ctx.ob("R-DEG", "C16.3", g, "the effective sample size does not change when all log-weights are shifted (degree 0, no exp of a shift-dependent value)", d == Fraction(0) and not [m for m in bad if "logsumexp" in m], f"degree {d}; reports {bad[:2]}")
-    ctx.floor("C16.3", 6)
-    ctx.assumptions += ["np.random.choice / np.where semantics; selection frequencies and ESS bounds are statistical / numeric and not decided"]
+        ctx.ob("R-DEG", clause, g, "the effective sample size does not change when all log-weights are shifted (degree 0, no exp of a shift-dependent value)", d == Fraction(0) and not [m for m in bad if "logsumexp" in m], f"degree {d}; reports {bad[:2]}")
 
 
 def _branch_body(fnode, stmt):
